@@ -56,8 +56,13 @@ func evalUpdate(c Case) hx.Result {
 		plugin, id := string(c.Plugin), string(c.ID)
 		wantKey := prefix + plugin + "_" + strings.ReplaceAll(id, "/", "_")
 		m := copyMap(c.Map)
-		if c.MapKind == "target-key-used" {
+		switch c.MapKind {
+		case "target-key-used":
 			m[wantKey] = "vendor.com/class=old"
+		case "target-key-used-with-empty-value":
+			m[wantKey] = "" // present all the same: "already used"
+		case "target-key-used-with-same-value":
+			m[wantKey] = strings.Join(c.Devices, ",")
 		}
 		before := copyMap(m)
 		fail := func(sig, msg string, exp, act any) hx.Result {
@@ -265,6 +270,8 @@ var mapKinds = []mapKind{
 	{"foreign", map[string]string{"example.com/foo": "bar"}},
 	{"other-cdi-key", map[string]string{prefix + "other_dev": "vendor.com/class=other"}},
 	{"target-key-used", map[string]string{}},
+	{"target-key-used-with-empty-value", map[string]string{}},
+	{"target-key-used-with-same-value", map[string]string{}},
 	{"mixed", map[string]string{"example.com/foo": "bar", prefix + "other_dev": "vendor.com/class=other"}},
 }
 
